@@ -79,6 +79,12 @@ class C10:
     def strategy(self, ctx):
         return st.one_of([s_ for _, s_, _ in self.strata(ctx)])
 
+    def fixed_cases(self, ctx):
+        # byte strings around the sizes at which readers switch to chunked reads (1 MiB and its multiples)
+        for target in ("2.7", "3.9", "3.3"):
+            for n in ((1 << 20) - 1, 1 << 20, (1 << 20) + 5, (2 << 20) + 1, (3 << 20) - 7):
+                yield {"target": target, "enc": "ref", "mver": None, "values": [], "bigbytes": n, "choices": []}
+
     def judge(self, case, ctx):
         res = Result()
         target, enc = case["target"], case["enc"]
@@ -87,6 +93,13 @@ class C10:
             return res
         case = dict(case)
         case["values"] = [gv.expand(v) for v in case["values"]]
+        if case.get("bigbytes"):
+            n = int(case["bigbytes"])
+            if not (0 < n <= (4 << 20)):
+                res.reject = "malformed-case"
+                return res
+            blob = (b"0123456789abcdef" * (n // 16 + 1))[:n]
+            case["values"] = [["y", rw.hx(blob)], ["i", "77"]]
         wire = target                       # whose magic number the bytes are read under
         if target in PYPY:
             if enc != "ref":
@@ -117,6 +130,9 @@ class C10:
             varnames = ["v%d" % i for i in range(nloc)]
             extra = {"co_argcount": ["i", str(3 + k % 2)], "co_stacksize": ["i", str(11 + k)],
                      "co_flags": ["i", str(0x43 + 0x100 * (k % 3))], "co_firstlineno": ["i", str(1000 + k * 13)]}
+            if vt < (2, 3) and k % 3 == 0:
+                # 16-bit header fields before 2.3 are signed: a code object on line 40000 reads back as line -25536
+                extra["co_firstlineno"] = ["i", str(-25536 + k)]
             if vt >= (3, 0):
                 extra["co_kwonlyargcount"] = ["i", str(2 - k % 2)]
             if vt >= (3, 8):
